@@ -1,4 +1,5 @@
 import Tv.GenClosures
+import Tv.Thm.C02Gen
 import Tv.Lemmas.GenSim
 import Tv.Thm.C03
 import Mathlib.Tactic.Ring
@@ -586,5 +587,75 @@ theorem ts_vrank_exact (sqrt : Rat → Rat) (sh : Shape) (xs : List (Option Rat)
     exact runSt_sim_mem _ _ (fun (g : Gen.ts_vrank.St) (n : Nat) => g.n = n) (Agree sqrt) _
       (fun s t c hc hr => ts_vrank_step sqrt xs xs.length w _ pct rev s t c hr hpos
         (vrank_unwrap_safe sh xs w hw c hc)) _ _ (by simp [Gen.ts_vrank.init])
+
+/-! ## from source, end to end: regenerated driver and regenerated closure together -/
+
+theorem ts_vzscore_from_source (sqrt : Rat → Rat) (xs : List (Option Rat)) (w : Nat) (mp : Option Nat) (hw : 1 ≤ w) :
+    C02Gen.E2E (fun cs => List.Forall₂ AgreeW
+      (genRun (Gen.ts_vzscore.step sqrt w (Gen.ts_vzscore.minPeriods w mp)) (Gen.ts_vzscore.init w) cs)
+      ((List.range xs.length).map fun i => Spec.tsZscore (normMp mp w) (window xs i w))) xs w :=
+  C02Gen.e2e_apply _ xs w hw (ts_vzscore_exact sqrt .to xs w mp hw) (ts_vzscore_exact sqrt .iter xs w mp hw)
+
+theorem ts_vmin_effWindow_pos (len w : Nat) (hw : 1 ≤ w) : 1 ≤ Gen.ts_vmin.effWindow len w := by
+  simp only [Gen.ts_vmin.effWindow]
+  split <;> simp_all <;> omega
+
+/-- regenerated index driver (both shapes, with the entry point's own window clamp) + regenerated closure -/
+theorem ts_vmin_from_source (sqrt : Rat → Rat) (xs : List (Option Rat)) (w : Nat) (mp : Option Nat) (hw : 1 ≤ w) :
+    C02Gen.E2EIdx (fun cs => List.Forall₂ (Agree sqrt)
+      (genRunIdx (Gen.ts_vmin.step sqrt xs xs.length w (Gen.ts_vmin.minPeriods xs.length w mp)) (Gen.ts_vmin.init xs.length w) cs)
+      ((List.range xs.length).map fun i => Spec.tsMin (cmpMp mp w xs.length) (window xs i w)))
+      xs (Gen.ts_vmin.effWindow xs.length w) :=
+  C02Gen.e2e_idx _ xs _ (ts_vmin_effWindow_pos _ w hw) (ts_vmin_exact sqrt .to xs w mp hw) (ts_vmin_exact sqrt .iter xs w mp hw)
+
+theorem ts_vmax_effWindow_pos (len w : Nat) (hw : 1 ≤ w) : 1 ≤ Gen.ts_vmax.effWindow len w := by
+  simp only [Gen.ts_vmax.effWindow]
+  split <;> simp_all <;> omega
+
+/-- regenerated index driver (both shapes, with the entry point's own window clamp) + regenerated closure -/
+theorem ts_vmax_from_source (sqrt : Rat → Rat) (xs : List (Option Rat)) (w : Nat) (mp : Option Nat) (hw : 1 ≤ w) :
+    C02Gen.E2EIdx (fun cs => List.Forall₂ (Agree sqrt)
+      (genRunIdx (Gen.ts_vmax.step sqrt xs xs.length w (Gen.ts_vmax.minPeriods xs.length w mp)) (Gen.ts_vmax.init xs.length w) cs)
+      ((List.range xs.length).map fun i => Spec.tsMax (cmpMp mp w xs.length) (window xs i w)))
+      xs (Gen.ts_vmax.effWindow xs.length w) :=
+  C02Gen.e2e_idx _ xs _ (ts_vmax_effWindow_pos _ w hw) (ts_vmax_exact sqrt .to xs w mp hw) (ts_vmax_exact sqrt .iter xs w mp hw)
+
+theorem ts_vargmin_effWindow_pos (len w : Nat) (hw : 1 ≤ w) : 1 ≤ Gen.ts_vargmin.effWindow len w := by
+  simp only [Gen.ts_vargmin.effWindow]
+  split <;> simp_all <;> omega
+
+/-- regenerated index driver (both shapes, with the entry point's own window clamp) + regenerated closure -/
+theorem ts_vargmin_from_source (sqrt : Rat → Rat) (xs : List (Option Rat)) (w : Nat) (mp : Option Nat) (hw : 1 ≤ w) :
+    C02Gen.E2EIdx (fun cs => List.Forall₂ (Agree sqrt)
+      (genRunIdx (Gen.ts_vargmin.step sqrt xs xs.length w (Gen.ts_vargmin.minPeriods xs.length w mp)) (Gen.ts_vargmin.init xs.length w) cs)
+      ((List.range xs.length).map fun i => Spec.tsArgmin (cmpMp mp w xs.length) (window xs i w)))
+      xs (Gen.ts_vargmin.effWindow xs.length w) :=
+  C02Gen.e2e_idx _ xs _ (ts_vargmin_effWindow_pos _ w hw) (ts_vargmin_exact sqrt .to xs w mp hw) (ts_vargmin_exact sqrt .iter xs w mp hw)
+
+theorem ts_vargmax_effWindow_pos (len w : Nat) (hw : 1 ≤ w) : 1 ≤ Gen.ts_vargmax.effWindow len w := by
+  simp only [Gen.ts_vargmax.effWindow]
+  split <;> simp_all <;> omega
+
+/-- regenerated index driver (both shapes, with the entry point's own window clamp) + regenerated closure -/
+theorem ts_vargmax_from_source (sqrt : Rat → Rat) (xs : List (Option Rat)) (w : Nat) (mp : Option Nat) (hw : 1 ≤ w) :
+    C02Gen.E2EIdx (fun cs => List.Forall₂ (Agree sqrt)
+      (genRunIdx (Gen.ts_vargmax.step sqrt xs xs.length w (Gen.ts_vargmax.minPeriods xs.length w mp)) (Gen.ts_vargmax.init xs.length w) cs)
+      ((List.range xs.length).map fun i => Spec.tsArgmax (cmpMp mp w xs.length) (window xs i w)))
+      xs (Gen.ts_vargmax.effWindow xs.length w) :=
+  C02Gen.e2e_idx _ xs _ (ts_vargmax_effWindow_pos _ w hw) (ts_vargmax_exact sqrt .to xs w mp hw) (ts_vargmax_exact sqrt .iter xs w mp hw)
+
+theorem ts_vrank_effWindow_pos (len w : Nat) (hw : 1 ≤ w) : 1 ≤ Gen.ts_vrank.effWindow len w := by
+  simp only [Gen.ts_vrank.effWindow]
+  split <;> simp_all <;> omega
+
+theorem ts_vrank_from_source (sqrt : Rat → Rat) (xs : List (Option Rat)) (w : Nat) (mp : Option Nat)
+    (pct rev : Bool) (hw : 1 ≤ w) :
+    C02Gen.E2EIdx (fun cs => List.Forall₂ (Agree sqrt)
+      (genRunIdx (Gen.ts_vrank.step sqrt xs xs.length w (Gen.ts_vrank.minPeriods xs.length w mp) pct rev)
+        (Gen.ts_vrank.init xs.length w) cs)
+      ((List.range xs.length).map fun i => Spec.tsRank (cmpMp mp w xs.length) pct rev (window xs i w)))
+      xs (Gen.ts_vrank.effWindow xs.length w) :=
+  C02Gen.e2e_idx _ xs _ (ts_vrank_effWindow_pos _ w hw) (ts_vrank_exact sqrt .to xs w mp pct rev hw)
+    (ts_vrank_exact sqrt .iter xs w mp pct rev hw)
 
 end Tv.C03Gen
